@@ -80,11 +80,11 @@ Qed.
 
 Lemma done_comma s f a : done_with s f a -> step s (Some COMMA) = mk StartField [] (f :: a).
 Proof.
-  intros [Ha [[Hs [Hp _]]|[[Hs Hp]|[Hs [Hp Hf]]]]]; destruct s as [s0 p a0]; cbn in *; subst; reflexivity.
+  intros [Ha [[Hs [Hp _]]|[[Hs Hp]|[Hs [Hp Hf]]]]]; destruct s as [s0 p a0]; cbn in *; subst; cbn; unfold save, add, goto; cbn [state pend acc]; rewrite ?frev_rev; reflexivity.
 Qed.
 Lemma done_lf s f a : done_with s f a -> step s (Some LF) = mk EatCRNL [] (f :: a).
 Proof.
-  intros [Ha [[Hs [Hp _]]|[[Hs Hp]|[Hs [Hp Hf]]]]]; destruct s as [s0 p a0]; cbn in *; subst; reflexivity.
+  intros [Ha [[Hs [Hp _]]|[[Hs Hp]|[Hs [Hp Hf]]]]]; destruct s as [s0 p a0]; cbn in *; subst; cbn; unfold save, add, goto; cbn [state pend acc]; rewrite ?frev_rev; reflexivity.
 Qed.
 
 Lemma run_join fs : forall a, fs <> [] ->
@@ -135,7 +135,7 @@ Qed.
 
 Lemma done_eol s f a : done_with s f a -> step s None = mk StartRecord [] (f :: a).
 Proof.
-  intros [Ha [[Hs [Hp _]]|[[Hs Hp]|[Hs [Hp Hf]]]]]; destruct s as [s0 p a0]; cbn in *; subst; reflexivity.
+  intros [Ha [[Hs [Hp _]]|[[Hs Hp]|[Hs [Hp Hf]]]]]; destruct s as [s0 p a0]; cbn in *; subst; cbn; unfold save, add, goto; cbn [state pend acc]; rewrite ?frev_rev; reflexivity.
 Qed.
 
 Lemma is_nl_cases c : is_nl c = true -> c = LF \/ c = CR.
@@ -144,7 +144,7 @@ Proof. unfold is_nl. intros H. apply orb_true_iff in H. destruct H as [H|H]; app
 Lemma done_nl s f a c : is_nl c = true -> done_with s f a -> step s (Some c) = mk EatCRNL [] (f :: a).
 Proof.
   intros Hc Hd. apply is_nl_cases in Hc. destruct Hc as [-> | ->]; [apply done_lf, Hd|].
-  destruct Hd as [Ha [[Hs [Hp _]]|[[Hs Hp]|[Hs [Hp Hf]]]]]; destruct s as [s0 p a0]; cbn in *; subst; reflexivity.
+  destruct Hd as [Ha [[Hs [Hp _]]|[[Hs Hp]|[Hs [Hp Hf]]]]]; destruct s as [s0 p a0]; cbn in *; subst; cbn; unfold save, add, goto; cbn [state pend acc]; rewrite ?frev_rev; reflexivity.
 Qed.
 
 Lemma run_eat term : forall a, forallb is_nl term = true -> run (mk EatCRNL [] a) term = mk EatCRNL [] a.
@@ -178,11 +178,11 @@ Theorem roundtrip_term fs term : fs <> [] -> forallb is_nl term = true -> parse 
 Proof.
   intros Hne Ht. destruct (run_render fs Hne) as (f0 & rest & Hfs & Hd).
   unfold parse. rewrite run_app. destruct term as [|c term].
-  - cbn [run fold_left]. rewrite (done_eol _ _ _ Hd). cbn [state acc]. cbn [rev]. rewrite rev_involutive.
+  - cbn [run fold_left]. rewrite (done_eol _ _ _ Hd). cbn [state acc]. rewrite frev_rev. cbn [rev]. rewrite rev_involutive.
     f_equal. symmetry. exact Hfs.
   - cbn [forallb] in Ht. apply andb_true_iff in Ht. destruct Ht as [Hc Ht].
     rewrite run_cons, (done_nl _ _ _ c Hc Hd), run_eat by exact Ht.
-    cbn [step state goto acc pend]. cbn [rev]. rewrite rev_involutive. f_equal. symmetry. exact Hfs.
+    cbn [step state goto acc pend]. rewrite frev_rev. cbn [rev]. rewrite rev_involutive. f_equal. symmetry. exact Hfs.
 Qed.
 
 Theorem roundtrip fs : fs <> [] -> parse (render fs ++ [LF]) = Some fs.
